@@ -10,10 +10,12 @@ from lib import gpgen
 from py2v import gen
 
 PROP = "C05"
-PROPS_FILES = ["Props/C05.v", "Props/C05_incumbent.v", "Props/C05_qei.v", "Props/C05_qeif.v", "Props/C05_qeif_refuted.v"]
+PROPS_FILES = ["Props/C05.v", "Props/C05_incumbent.v", "Props/C05_qei.v", "Props/C05_qeif.v", "Props/C05_qeif_refuted.v", "Props/C05_gauss.v"]
 ASSUMPTIONS = [
-  "real arithmetic (Coq R / Coquelicot); Phi := 1/2 + RInt pdf 0 z, so Phi' = pdf is proved; 0 < Phi < 1 and z*Phi(z) -> 0 at -infinity (Gaussian integral facts H_Phi_range, H_Phi_tail) are assumptions",
-  "E[max(best - Y, 0)] is characterised through its derivative in the incumbent (= Phi(z) = P(Y <= best)); the improper integral itself is not formalised: the searcher compares with numerical quadrature",
+  "real arithmetic (Coq R / Coquelicot); Phi := 1/2 + RInt pdf 0 z; Phi' = pdf, the Gaussian integral int_0^oo exp(-t^2) = sqrt(pi)/2, 0 < Phi < 1, the limits of Phi, "
+  "the Mills-ratio tail bound and z*Phi(z) -> 0 at -infinity are all PROVED (Lib/Gauss.v) - no Gaussian fact is assumed any more",
+  "E[max(best - Y, 0)] = sigma*G((best - mu)/sigma) is proved as an improper Riemann integral against the N(mu, sigma^2) density (Coquelicot is_RInt_gen, three forms: limit of "
+  "proper integrals, integral over (-oo, best], integral of max(best - y, 0) over the whole line; density positive with total mass 1); the searcher additionally compares the running code with numerical quadrature",
   "Monte-Carlo parallel EI, with and without failure models, is modelled (Model/ParallelEI.v, Model/ParallelEIF.v) and tied to the running classes by an exact in-Coq "
   "correspondence on stub predictors with a prescribed factor per covariance and scripted normal draws; that the factor satisfies L L' = cov is C17; that the sample mean "
   "agrees with the expectation is a statistical statement, compared within a 6-sigma Monte-Carlo band by the searcher only",
@@ -24,7 +26,8 @@ ASSUMPTIONS = [
 ]
 TRUSTED = ["tools/py2v translator (dual-rendering self-check on every run)", "Model/Incumbent.v, Model/ParallelEICorr.v, Model/ParallelEIFCorr.v check functions and the harness"]
 LEVEL_TEXT = ("Coq/Coquelicot theorems over definitions regenerated from predictor.py, expected_improvement.py, probabilistic_failures.py, "
-              "multitask_acquisition_function.py on every run: EI = sigma*max(0, z Phi(z)+pdf(z)) >= 0, d/d(best) of sigma*G(z) = Phi(z), augmented "
+              "multitask_acquisition_function.py on every run: EI = sigma*max(0, z Phi(z)+pdf(z)) = sigma*G(z) > 0 (the clamp is never active), sigma*G(z) IS E[max(best - Y, 0)] "
+              "for Y ~ N(mu, sigma^2) as an improper integral (Gaussian integral, 0 < Phi < 1 and the Gaussian tail proved from scratch in Lib/Gauss.v), d/d(best) of sigma*G(z) = Phi(z), augmented "
               "penalty in [0,1), failure-weighted form = EI * probability, multitask = value / cost, logistic probability in (0,1) and non-increasing, "
               "CDF model = Phi((t-mu)/sd) strictly decreasing, product model multiplies and stays in [0,1]; batched evaluation = map and the "
               "incumbents (first minimum; mean at the arg-min of the 3/4 quantile; best acceptable observation) proved on an executable model tied by "
@@ -33,7 +36,7 @@ LEVEL_TEXT = ("Coq/Coquelicot theorems over definitions regenerated from predict
               "max(0, best - min(sample)), for the failure class restricted to the points whose sampled failure-model values are all strictly below their thresholds "
               "(same draws), with a whole-block fallback to success-probability weighted improvements; >= 0, <= the plain estimate on the negated draws, = the plain "
               "estimate when every sample is feasible; quadrature / Monte-Carlo / monotonicity search on the running code")
-LEVEL_NOTE = ("the integral identity E[max(best-Y,0)] = sigma*G(z) is partial (derivative characterisation proved, Gaussian tail assumed); both Monte-Carlo parallel-EI "
+LEVEL_NOTE = ("the integral identity E[max(best-Y,0)] = sigma*G(z) is proved in full (no Gaussian fact assumed); both Monte-Carlo parallel-EI "
               "loops are modelled and tied exactly - what remains outside: the factor itself (C17) and the agreement of the sample mean with the expectation (search only, "
               "plain class); for the failure class set independence holds only between calls in which no block falls back (refuted in general); axioms: standard-library "
               "real-number axioms (the parallel-EI theorems are closed under the global context)")
